@@ -11,6 +11,9 @@ CLAIMED = {
 CLAIMED['C10'] = dict(category='proof',
     text='view(b) = set of enumerators whose bit is set (spec macro over the raw words, independent of the code), wf(b) = padding bits of the last word are clear. Every public operation (get/[]/& e, set/[]=, | e, |,&,^ and assigning forms incl. aliased operands, ~, ==, !=, is_subset_eq, null, initializer lists) carries a contract over the WHOLE view (finite conjunction over all N enumerators) plus wf, enforced by CBMC --dfcc for fully symbolic words; lemmas: init<bitfield>(f) for an uninterpreted f, equal sets hash/compare equal, composed identities through the real operators. Enum sizes 1,3,8,9,17 x word types u8..u64 (12 instantiations quick, all 20 thorough); word loops are compile-time bounded (<= 3 words) and unroll completely.',
     note='Trusted: clang-14 front end, ir2c, CBMC/solvers. (M) every bitfield reachable through the set-level API is wf by induction over its construction history (steps machine-checked). Not decided: stream output; raw array() access can create non-wf values by design.')
+CLAIMED['C13'] = dict(category='proof',
+    text='Boxes are passed as their corner scalars; a universally quantified point p (and, for minimality of the bounding box, a universally quantified box c) is a ghost parameter, so each contract holds for every point without a quantifier reaching the solver. Contracts (postconditions taken from the property): contains_point == membership; intersects (non-empty) == a common point exists; contains(outer, non-empty inner) == subset; intersection contains exactly the common points and is null for non-intersecting non-empty boxes; extend_bounding_box contains both and is contained in every box containing both; box(pos,size)/size()/max(), shrink, stretch_absolute, null, corner_points (all 2^N vertices in order). The closed forms COMMON/SUBSET used in the contracts are themselves proved equivalent to the point-set statements by witness lemmas. int and unsigned coordinates, N = 1,2,3, full 32-bit coordinate domain; all loop-free.',
+    note='Trusted: clang-14 front end + opt inline/sroa/mem2reg, ir2c, CBMC/solvers. The null-box clause of intersection is required only for non-empty operands (an empty operand that lies inside the other box yields an empty, non-null box; the property characterises intersects only for non-empty boxes). Not decided: center, stretch_relative, structure_cast, distance, output.')
 NA = {}
 props = [json.loads(l) for l in open(os.path.join(V, 'properties.jsonl'))]
 na_reasons = json.load(open(os.path.join(V, 'tools', 'not_applicable.json')))
